@@ -36,6 +36,7 @@ type HarnessResult struct {
 	Assumptions         map[string]bool
 	SymbolicPaths       int
 	Samples             []string
+	PassWitnesses       []*Violation
 	Steps               int
 	MaxThreads          int
 	VisibleOps          int
@@ -254,6 +255,9 @@ func (e *Explorer) merge(r *PathResult) {
 	}
 	if r.Sample != "" && len(R.Samples) < 6 {
 		R.Samples = append(R.Samples, r.Sample)
+		if r.PassWitness != nil {
+			R.PassWitnesses = append(R.PassWitnesses, r.PassWitness)
+		}
 	}
 	if r.Threads > R.MaxThreads {
 		R.MaxThreads = r.Threads
@@ -327,6 +331,11 @@ func (m *Machine) samplePath() string {
 	vals, ok := m.modelInputs(nil)
 	if !ok {
 		return ""
+	}
+	if len(m.Res.Violations) == 0 {
+		// a passing path with a concrete witness: kept for native validation (the compiled harness must pass on it too)
+		m.Res.PassWitness = &Violation{Harness: m.Cfg.Name, Kind: "pass", Site: m.Cfg.Name + "|pass", Inputs: vals,
+			Sched: append([]int(nil), m.sched...), SchedPos: append([]string(nil), m.schedPos...)}
 	}
 	var sb strings.Builder
 	fmt.Fprintf(&sb, "path with %d decisions, %d path constraints; witness inputs: ", len(m.decisions), len(m.pc))
